@@ -525,6 +525,7 @@ Definition e_absgrad (ks : list qclass) (x t : sample) : sample := map Qcabs (fq
 Definition e_const (e : sample) (x t : sample) : sample := e.
 Definition e_const_t (e : sample) (x t : sample) : sample := map (fun v => v * nthq t 0 + qsum t) e.
 Definition dist_sq (a b : sample) : Qc := sqdist a b.
+Definition dump3 (t : triple) := [qdump (t_cov t); qdump (t_va t); qdump (t_vb t)].
 Close Scope Qc_scope.
 """
 
@@ -592,12 +593,12 @@ def dump_term(case, res):
     s = case["stream"]
     if s == "spearman":
         a, b = core.cqlist(case["a"]), core.cqlist(case["b"])
-        return f"(map qdump (ranks {a}), map qdump (ranks {b}), qdump3 (spearman3 {a} {b}))"
+        return f"(map qdump (ranks {a}), map qdump (ranks {b}), dump3 (spearman3 {a} {b}))"
     if res.get("problems"):
         return "(@nil nat)"
     if s == "mufid":
         return ("(" + mufid_lets(case, res) +
-                "(qdump (mufid (fquad ks) bm c cphi qsqrt9 bs nb rows), map qdump3 (mufid_triples (fquad ks) bm c cphi bs nb rows), "
+                "([qdump (mufid (fquad ks) bm c cphi qsqrt9 bs nb rows)], map dump3 (mufid_triples (fquad ks) bm c cphi bs nb rows), "
                 "map (fun pa => (map qdump (fst pa), map qdump (snd pa))) (mufid_lists (fquad ks) bm c cphi bs nb rows)))")
     return "(" + stab_lets(case, res) + f"qdump (stability ex {coq_dist(case)} base xs ts noises))"
 
@@ -621,7 +622,7 @@ def explain_failure(case, res, model):
     if s == "mufid":
         import warnings
         from scipy.stats import spearmanr
-        value, triples, lists = model
+        (value,), triples, lists = model
         per = []
         for (cv, va, vb), (pr, at) in zip(triples, lists):
             cv, va, vb = _f(cv), _f(va), _f(vb)
